@@ -26,3 +26,14 @@ ENGINES = [
     dict(name="component", path="check + harness/cmd/<id> + specs/periph", serves_properties=["C39"],
          kind_free_text="TLC behaviours replayed into one real component and/or recorded traces validated by a Trace*.tla"),
 ]
+
+# per-property fragments: checks/reg/<ID>.py defining CHECK (same keys as above) and optionally ENGINE
+import glob as _glob, os as _os, importlib.util as _ilu
+for _f in sorted(_glob.glob(_os.path.join(_os.path.dirname(_os.path.abspath(__file__)), "reg", "C*.py"))):
+    _spec = _ilu.spec_from_file_location("reg_" + _os.path.basename(_f)[:-3], _f)
+    _m = _ilu.module_from_spec(_spec)
+    _spec.loader.exec_module(_m)
+    CHECKS[_os.path.basename(_f)[:-3]] = _m.CHECK
+    if hasattr(_m, "ENGINE"):
+        ENGINES.append(_m.ENGINE)
+NA = {}   # property id -> reason, for properties deliberately not claimed
